@@ -1,7 +1,7 @@
 """C18 - a format string maps columns by position, and inspect's suggestion round-trips.
 
 Part 1 (parser): every sequence of <= K column tokens over {date, description, amount, -amount, +amount,
-location, a, b, _, *} x 3 date formats x 4 templates (all invalid arrangements included) x 4 spellings;
+location, a, b, _, *} x 4 date formats x 4 templates (all invalid arrangements included) x 4 spellings;
 parse_format_string must return exactly the reference positions / date format / sign mode, or reject.
 Part 2 (inspect): every header row of <= K cells over 18 header texts (plus the 5-column family: 3 mapped columns and every ordered pair of further headers in 3 arrangements) with two data rows; when the real
 cmd_inspect prints a suggestion, the parser must accept it and select the date / description / amount
@@ -28,7 +28,7 @@ ASSUMPTIONS = ["arrangements with a {description} column AND a template whose co
                "date formats containing a comma are outside the alphabet", "inspect is run in-process with stdout captured"]
 
 TOKENS = ["date", "description", "amount", "-amount", "+amount", "location", "a", "b", "_", "*", "_ref"]
-DATEFMTS = [None, "%Y-%m-%d", "%d %b %y"]
+DATEFMTS = [None, "%Y-%m-%d", "%d %b %y", "%Y-%m-%dT%H:%M:%S%z"]
 TEMPLATES = [None, "{a}", "{a} {b}", "{c}"]
 HEADERS = ["Date", "Transaction Date", "Posting Date", "Payment Date", "Description", "Merchant Name", "Payee", "Memo", "Amount", "Debit",
            "Payment", "Location", "City", "Balance", "",
